@@ -197,7 +197,12 @@ func c13GetEnv() *c13Env {
 // c13DenyAC refuses entries whose payload starts with the given prefix.
 type c13DenyAC struct{ prefix string }
 
-func (d *c13DenyAC) CanAppend(e accesscontroller.LogEntry, _ idp.Interface, _ accesscontroller.CanAppendAdditionalContext) error {
+func (d *c13DenyAC) CanAppend(e accesscontroller.LogEntry, _ idp.Interface, actx accesscontroller.CanAppendAdditionalContext) error {
+	// a controller may consult the log it guards (duplicate detection, earlier grants): the context it is
+	// handed is there for that, and it is called while the log's lock is held
+	if actx != nil {
+		_ = actx.GetLogEntries()
+	}
 	if d.prefix != "" && strings.HasPrefix(string(e.GetPayload()), d.prefix) {
 		return fmt.Errorf("denied by the harness access controller")
 	}
@@ -353,7 +358,7 @@ func c13Setup(c c13Case) *c13Run {
 		}
 		c13IO, c13Pad = dio.ApplyOptions(&cbor.Options{LinkKey: key}), 9000
 	}
-	var ac accesscontroller.Interface
+	var ac accesscontroller.Interface = &c13DenyAC{}
 	if c.Deny {
 		ac = &c13DenyAC{prefix: "s"}
 	}
@@ -452,6 +457,26 @@ func (r *c13Run) do(w int, k int, op c13Op, record bool) {
 			for e := range ch {
 				o.List = append(o.List, hs(e.GetHash()))
 			}
+		}
+	case "iterappend":
+		// the consumer of a running iteration writes to the log before it has drained the (unbuffered) channel
+		ch := make(chan iface.IPFSLogEntry)
+		done := make(chan error, 1)
+		go func() { done <- l.Iterator(&ipfslog.IteratorOptions{}, ch) }()
+		first := true
+		for e := range ch {
+			o.List = append(o.List, hs(e.GetHash()))
+			if first {
+				first = false
+				if ne, err := l.Append(ctx, []byte(fmt.Sprintf("w%d-%d-mid-iteration", w, k)), nil); err != nil {
+					o.Err = err.Error()
+				} else {
+					o.Hash = hs(ne.GetHash())
+				}
+			}
+		}
+		if err := <-done; err != nil && o.Err == "" {
+			o.Err = err.Error()
 		}
 	case "pause":
 		time.Sleep(time.Duration(op.Arg) * 100 * time.Microsecond)
@@ -876,7 +901,7 @@ func (r *c13Run) evaluate(prop string) []monitorFailure {
 // ---------------------------------------------------------------------------------------------
 // runner
 
-var c13Kinds = []string{"append", "join", "values", "heads", "get", "has", "len", "snapshot", "jsonlog", "entries", "iterator", "iter2", "iterlte", "setid", "multihash"}
+var c13Kinds = []string{"append", "join", "values", "heads", "get", "has", "len", "snapshot", "jsonlog", "entries", "iterator", "iter2", "iterlte", "iterappend", "setid", "multihash"}
 
 type c13Tally struct {
 	res      *result
